@@ -7,19 +7,28 @@ Open Scope Z_scope.
 (* the device is released exactly when the port is closed, and never twice *)
 Definition Inv (p : port) : Prop := (p_closed p = false /\ p_closes p = 0%nat) \/ (p_closed p = true /\ p_closes p = 1%nat).
 
-Lemma dev_send_core p m : p_closed (dev_send p m) = p_closed p /\ p_closes (dev_send p m) = p_closes p /\ p_autoreset (dev_send p m) = p_autoreset p /\ p_echo (dev_send p m) = p_echo p.
-Proof. unfold dev_send. destruct (p_echo p) eqn:E; cbn [set_core p_closed p_closes p_autoreset p_echo]; rewrite ?E; repeat split; reflexivity. Qed.
-Lemma sends_core l : forall p, p_closed (fold_left dev_send l p) = p_closed p /\ p_closes (fold_left dev_send l p) = p_closes p.
+Lemma set_faults_core p f : p_closed (set_faults p f) = p_closed p /\ p_closes (set_faults p f) = p_closes p /\ p_autoreset (set_faults p f) = p_autoreset p /\
+  p_echo (set_faults p f) = p_echo p /\ p_sleeps (set_faults p f) = p_sleeps p /\ p_calls (set_faults p f) = p_calls p.
+Proof. repeat split; reflexivity. Qed.
+Lemma dev_send_core p m : p_closed (fst (dev_send p m)) = p_closed p /\ p_closes (fst (dev_send p m)) = p_closes p /\ p_autoreset (fst (dev_send p m)) = p_autoreset p /\
+  p_echo (fst (dev_send p m)) = p_echo p /\ p_sleeps (fst (dev_send p m)) = p_sleeps p /\ p_calls (fst (dev_send p m)) = p_calls p.
 Proof.
-  induction l as [|m r IH]; intros p; [split; reflexivity|]. cbn [fold_left]. destruct (IH (dev_send p m)) as [A B].
-  destruct (dev_send_core p m) as (C & D & _). split; congruence.
+  unfold dev_send. destruct (p_faults p) as [|[|] f]; cbn [fst]; try (repeat split; reflexivity);
+  match goal with |- context [if ?c then _ else _] => destruct c end; repeat split; reflexivity.
+Qed.
+Lemma send_all_core l : forall p, p_closed (fst (send_all l p)) = p_closed p /\ p_closes (fst (send_all l p)) = p_closes p /\
+  p_sleeps (fst (send_all l p)) = p_sleeps p /\ p_calls (fst (send_all l p)) = p_calls p.
+Proof.
+  induction l as [|m r IH]; intros p; [repeat split; reflexivity|]. cbn [send_all].
+  destruct (dev_send_core p m) as (C & D & _ & _ & E & F). destruct (dev_send p m) as [p1 ok]. cbn [fst] in *.
+  destruct ok; [|cbn [fst]; repeat split; assumption]. destruct (IH p1) as (A1 & A2 & A3 & A4). repeat split; congruence.
 Qed.
 Lemma close_inv p : Inv p -> Inv (close p) /\ p_closed (close p) = true.
 Proof.
   intros H. unfold close. destruct (p_closed p) eqn:E.
   - split; [exact H|exact E].
   - destruct H as [[_ Hc]|[Hc _]]; [|congruence]. split; [|reflexivity]. right. cbn [set_core p_closed p_closes]. split; [reflexivity|].
-    destruct (p_autoreset p); [destruct (sends_core reset_ids p) as [_ B]; rewrite B|]; now rewrite Hc.
+    destruct (p_autoreset p); [destruct (send_all_core reset_ids p) as (_ & B & _); rewrite B|]; now rewrite Hc.
 Qed.
 Lemma dev_receive_inv p : Inv p -> Inv (fst (dev_receive p)).
 Proof.
@@ -61,7 +70,15 @@ Proof.
   - destruct e; try exact H1. destruct (p_closed p1); exact H1.
 Qed.
 Lemma send_inv p m : Inv p -> Inv (fst (send p m)).
-Proof. intros H. unfold send. destruct (p_closed p) eqn:E; [exact H|]. cbn [fst]. unfold Inv. destruct (dev_send_core p m) as (A & B & _). now rewrite A, B. Qed.
+Proof.
+  intros H. unfold send. destruct (p_closed p) eqn:E; [exact H|]. destruct (dev_send_core p m) as (A & B & _).
+  destruct (dev_send p m) as [p1 ok]. cbn [fst] in *. unfold Inv. now rewrite A, B.
+Qed.
+Lemma reset_inv p : Inv p -> Inv (fst (reset p)).
+Proof.
+  intros H. unfold reset. destruct (p_closed p) eqn:E; [exact H|]. destruct (send_all_core reset_ids p) as (A & B & _).
+  destruct (send_all reset_ids p) as [p1 ok]. cbn [fst] in *. unfold Inv. now rewrite A, B.
+Qed.
 
 Lemma step_inv fuel p o : Inv p -> Inv (fst (port_step fuel p o)).
 Proof.
@@ -76,6 +93,7 @@ Proof.
   - apply close_inv, H.
   - pose proof (send_inv p m H) as H1. destruct (send p m) as [p1 r]. cbn [fst] in *. apply close_inv, H1.
   - apply close_inv, H.
+  - pose proof (reset_inv p H) as H1. destruct (reset p). exact H1.
 Qed.
 
 (* close() any number of times, in any history, on any device script: the device is released at most once, and exactly once iff closed *)
@@ -85,24 +103,49 @@ Proof.
   pose proof (step_inv fuel p o H) as H1. destruct (port_step fuel p o) as [p1 x]. cbn [fst] in H1.
   specialize (IH p1 H1). destruct (port_run fuel p1 r). exact IH.
 Qed.
-Lemma new_port_inv a e s : Inv (new_port a e s).
+Lemma new_port_inv a e s f : Inv (new_port a e s f).
 Proof. left. split; reflexivity. Qed.
 
-Theorem close_once_new fuel autoreset echo script ops :
-  let p := fst (port_run fuel (new_port autoreset echo script) ops) in
+Theorem close_once_new fuel autoreset echo script faults ops :
+  let p := fst (port_run fuel (new_port autoreset echo script faults) ops) in
   (p_closed p = false /\ p_closes p = 0%nat) \/ (p_closed p = true /\ p_closes p = 1%nat).
-Proof. exact (close_once fuel ops _ (new_port_inv autoreset echo script)). Qed.
+Proof. exact (close_once fuel ops _ (new_port_inv autoreset echo script faults)). Qed.
 
 (* with autoreset the reset messages reach the device once, contiguous, immediately before the release *)
-Theorem close_autoreset p : p_closed p = false -> p_autoreset p = true -> p_echo p = false ->
+Lemma send_all_ok : forall l q, p_echo q = false -> p_faults q = [] ->
+  p_sent (fst (send_all l q)) = p_sent q ++ l /\ p_closes (fst (send_all l q)) = p_closes q /\ snd (send_all l q) = true.
+Proof.
+  induction l as [|m r IH]; intros q Hq Hf; cbn [send_all]; [cbn [fst snd]; now rewrite app_nil_r|].
+  unfold dev_send. rewrite Hf. cbn [tl]. cbn [set_faults p_echo]. rewrite Hq.
+  match goal with |- context [send_all r ?x] => destruct (IH x) as (A & B & C); [exact Hq|reflexivity|] end.
+  rewrite A, B, C. cbn [set_core set_faults p_sent p_closes]. rewrite <- app_assoc. repeat split.
+Qed.
+Theorem close_autoreset p : p_closed p = false -> p_autoreset p = true -> p_echo p = false -> p_faults p = [] ->
   p_sent (close p) = p_sent p ++ reset_ids /\ p_closes (close p) = S (p_closes p) /\ p_closed (close p) = true.
 Proof.
-  intros Hc Ha He. unfold close. generalize reset_ids. intros rs. rewrite Hc, Ha.
-  assert (Hs : forall l q, p_echo q = false -> p_sent (fold_left dev_send l q) = p_sent q ++ l /\ p_closes (fold_left dev_send l q) = p_closes q).
-  { induction l as [|m r IH]; intros q Hq; cbn [fold_left]; [now rewrite app_nil_r|].
-    assert (Hq' : p_echo (dev_send q m) = false) by (destruct (dev_send_core q m) as (_ & _ & _ & E); congruence).
-    destruct (IH _ Hq') as [A B]. rewrite A, B. unfold dev_send. rewrite Hq. cbn [set_core p_sent p_closes]. now rewrite <- app_assoc. }
-  destruct (Hs rs p He) as [A B]. cbv zeta. cbn [set_core p_sent p_closes p_closed]. rewrite A, B. repeat split.
+  intros Hc Ha He Hf. unfold close. generalize reset_ids. intros rs. rewrite Hc, Ha.
+  destruct (send_all_ok rs p He Hf) as (A & B & _). cbv zeta. cbn [set_core p_sent p_closes p_closed]. rewrite A, B. repeat split.
+Qed.
+(* whatever the device does to the reset messages (fault sequences), close still releases it, once, and what went out is a prefix of the reset messages *)
+Lemma send_all_prefix : forall l q, p_echo q = false -> exists k, p_sent (fst (send_all l q)) = p_sent q ++ firstn k l.
+Proof.
+  induction l as [|m r IH]; intros q Hq; cbn [send_all]; [exists 0%nat; cbn; now rewrite app_nil_r|].
+  destruct (dev_send_core q m) as (_ & _ & _ & E & _).
+  assert (Hs : snd (dev_send q m) = true -> p_sent (fst (dev_send q m)) = p_sent q ++ [m]).
+  { unfold dev_send. destruct (p_faults q) as [|[|] f]; cbn [fst snd]; try discriminate; intros _; cbn [set_faults p_echo]; rewrite Hq; reflexivity. }
+  assert (Hn : snd (dev_send q m) = false -> p_sent (fst (dev_send q m)) = p_sent q).
+  { unfold dev_send. destruct (p_faults q) as [|[|] f]; cbn [fst snd]; try discriminate; intros _; reflexivity. }
+  destruct (dev_send q m) as [p1 ok]. cbn [fst snd] in *. destruct ok.
+  - destruct (IH p1 ltac:(congruence)) as [k Hk]. exists (S k). rewrite Hk, Hs by reflexivity. cbn [firstn]. now rewrite <- app_assoc.
+  - exists 0%nat. cbn [fst firstn]. rewrite Hn by reflexivity. now rewrite app_nil_r.
+Qed.
+Theorem close_releases_despite_faults p : p_closed p = false -> p_echo p = false ->
+  p_closes (close p) = S (p_closes p) /\ p_closed (close p) = true /\ exists k, p_sent (close p) = p_sent p ++ firstn k reset_ids.
+Proof.
+  intros Hc He. unfold close. generalize reset_ids. intros rs. rewrite Hc. cbv zeta. cbn [set_core p_sent p_closes p_closed].
+  destruct (p_autoreset p).
+  - destruct (send_all_core rs p) as (_ & B & _). rewrite B. split; [reflexivity|]. split; [reflexivity|]. apply send_all_prefix, He.
+  - split; [reflexivity|]. split; [reflexivity|]. exists 0%nat. cbn. now rewrite app_nil_r.
 Qed.
 Theorem close_idempotent p : p_closed p = true -> close p = p.
 Proof. intros H. unfold close. now rewrite H. Qed.
@@ -187,13 +230,11 @@ Proof.
   - unfold pop in Ep. destruct (p_queue p); [discriminate|]. injection Ep as <- _. eexists; eexists. split; [reflexivity|]. cbn. repeat split; try lia; discriminate.
   - destruct (p_closed p); [eexists; eexists; split; [reflexivity|repeat split; try lia; discriminate]|].
     cbn [receive_loop]. assert (Hd : p_sleeps (fst (dev_receive p)) = p_sleeps p /\ p_calls (fst (dev_receive p)) = S (p_calls p)).
-    { unfold dev_receive. destruct (p_script p) as [|a rest]; [split; reflexivity|]. destruct a; cbn [fst]; try (split; reflexivity);
-      unfold close; cbn [set_core p_closed]; match goal with |- context [if ?c then _ else _] => destruct c end; cbn [set_core p_sleeps p_calls];
-      try (split; reflexivity);
-      match goal with |- context [if ?a then fold_left dev_send reset_ids ?q else _] => destruct a end; cbn [p_sleeps p_calls]; try (split; reflexivity);
-      (assert (Hk : forall l q, p_sleeps (fold_left dev_send l q) = p_sleeps q /\ p_calls (fold_left dev_send l q) = p_calls q)
-         by (induction l as [|x l IHl]; intros q; cbn [fold_left]; [split; reflexivity|]; destruct (IHl (dev_send q x)) as [A B]; rewrite A, B; unfold dev_send; destruct (p_echo q); split; reflexivity));
-      match goal with |- context [fold_left dev_send reset_ids ?q] => destruct (Hk reset_ids q) as [A B]; rewrite A, B end; split; reflexivity. }
+    { assert (Hcl : forall q, p_sleeps (close q) = p_sleeps q /\ p_calls (close q) = p_calls q).
+      { intros q. unfold close. destruct (p_closed q); [split; reflexivity|]. cbv zeta. cbn [set_core p_sleeps p_calls].
+        destruct (p_autoreset q); [|split; reflexivity]. destruct (send_all_core reset_ids q) as (_ & _ & A & B). now rewrite A, B. }
+      unfold dev_receive. destruct (p_script p) as [|a rest]; [split; reflexivity|]. destruct a; cbn [fst]; try (split; reflexivity);
+      match goal with |- context [close ?q] => destruct (Hcl q) as [A B]; rewrite A, B end; split; reflexivity. }
     destruct (dev_receive p) as [p1 r]. cbn [fst] in Hd. destruct Hd as [A B]. destruct r.
     + eexists; eexists. split; [reflexivity|]. repeat split; try lia; discriminate.
     + destruct (pop p1) as [[p2 m]|] eqn:Ep1.
